@@ -52,6 +52,10 @@ theorem sink_run_hyperlink_address__after_another_link_was_re_pointed_attr_safe 
 theorem sink_run_hyperlink_address__after_another_link_was_re_pointed_attr_data (s : Str) : ∃ k', lexRun .attr (.normal 0) (s.flatMap (sigma sink_run_hyperlink_address__after_another_link_was_re_pointed)) = some (.normal k', s) :=
   safe_render .attr sink_run_hyperlink_address__after_another_link_was_re_pointed sink_run_hyperlink_address__after_another_link_was_re_pointed_attr_safe s 0 (by omega)
 
+theorem sink_run_hyperlink_address_shared_by_two_runs__the_other_one_re_pointed_or_cleared_attr_safe : safeTbl .attr sink_run_hyperlink_address_shared_by_two_runs__the_other_one_re_pointed_or_cleared = true := by decide
+theorem sink_run_hyperlink_address_shared_by_two_runs__the_other_one_re_pointed_or_cleared_attr_data (s : Str) : ∃ k', lexRun .attr (.normal 0) (s.flatMap (sigma sink_run_hyperlink_address_shared_by_two_runs__the_other_one_re_pointed_or_cleared)) = some (.normal k', s) :=
+  safe_render .attr sink_run_hyperlink_address_shared_by_two_runs__the_other_one_re_pointed_or_cleared sink_run_hyperlink_address_shared_by_two_runs__the_other_one_re_pointed_or_cleared_attr_safe s 0 (by omega)
+
 theorem sink_placeholder_name__then_insert_picture_attr_safe : safeTbl .attr sink_placeholder_name__then_insert_picture = true := by decide
 theorem sink_placeholder_name__then_insert_picture_attr_data (s : Str) : ∃ k', lexRun .attr (.normal 0) (s.flatMap (sigma sink_placeholder_name__then_insert_picture)) = some (.normal k', s) :=
   safe_render .attr sink_placeholder_name__then_insert_picture sink_placeholder_name__then_insert_picture_attr_safe s 0 (by omega)
